@@ -43,8 +43,10 @@ def harness_module(imported=False):
 _bin = {}
 
 
-def harness_binary(asan=True, imported=False):
-    key = ('h', asan, imported)
+def harness_binary(asan=True, imported=False, ndebug=False):
+    """ndebug=True: the generated C and the runtime are compiled with -DNDEBUG (release builds of embedders do that): nothing
+    the property needs may live inside an assert()"""
+    key = ('h', asan, imported, ndebug)
     if key in _bin and os.path.exists(_bin[key]):
         return _bin[key]
     d = cexec.new_dir('vs')
@@ -52,7 +54,7 @@ def harness_binary(asan=True, imported=False):
     if tr.rc != 0:
         raise cexec.InfraError('translating the schedule-harness module failed: %s' % tr.err[-300:])
     cc = ['clang', '-O1', '-g', '-w'] + (['-fsanitize=address,undefined', '-fno-sanitize-recover=all'] if asan else [])
-    cmd = cc + (['-DVF_IMPORTED_MEMORY=%d' % MAXPAGES] if imported else []) + ['-DWASM_THREADS_PTHREADS', '-I', os.path.join(cexec.REPO, 'w2c2'), '-I', os.path.join(cexec.REPO, 'futex'),
+    cmd = cc + (['-DVF_IMPORTED_MEMORY=%d' % MAXPAGES] if imported else []) + (['-DNDEBUG'] if ndebug else []) + ['-DWASM_THREADS_PTHREADS', '-I', os.path.join(cexec.REPO, 'w2c2'), '-I', os.path.join(cexec.REPO, 'futex'),
                 '-I', os.path.join(cexec.VERIF, 'c'), '-I', d,
                 os.path.join(cexec.VERIF, 'c', 'sched_harness.c'), os.path.join(cexec.VERIF, 'c', 'vsched.c'), os.path.join(d, 'm.c')] + \
         [os.path.join(cexec.REPO, 'futex', f) for f in cexec.FUTEX_SRCS] + WRAP_FLAGS + ['-o', os.path.join(d, 'harness'), '-lpthread', '-lm']
@@ -69,7 +71,7 @@ Ev = collections.namedtuple('Ev', 'tid idx op a b c res s0 s1 acqs')
 def run_case(case, asan=True, timeout=60):
     """case: {'threads': {tid: [[op,a,b,c],...]}, 'addrs': [...], 'decisions': hex, 'spurious': n}
     returns (status, events, extra): status in ok | deadlock | stuck | crash | timeout"""
-    exe = harness_binary(asan, bool(case.get('imported')))
+    exe = harness_binary(asan, bool(case.get('imported')), bool(case.get('ndebug')))
     lines = ['T %d' % len(case['threads']), 'D %s %d' % (case['decisions'] or '-', case.get('spurious', 3))]
     for tid in sorted(case['threads'], key=int):
         for op in case['threads'][tid]:
